@@ -4,7 +4,7 @@ package lexer
 // operations.  Base case + one inductive step per operation from an
 // arbitrary state that satisfies the representation invariant.
 
-const vhMaxTokens = 4 // @tier quick=4 thorough=7
+const vhMaxTokens = 4 // @tier quick=4 thorough=5
 
 // the elision set of a path: one of these pairs, chosen in vhTokens (types next
 // to EOF, types far from it -- the 63rd and later symbols of a lexer --, and
